@@ -341,6 +341,10 @@ func translateOneDataBlob(logger log.Logger, match stringMatcher, visitor visito
 			logger.Debug("repaired invalid utf-8 in history event blob")
 			metrics.TranslationCount.WithLabelValues(metrics.UTF8RepairTranslationKind, metrics.HistoryBlobMessageType).Inc()
 			events = repairedEvents
+		} else {
+			// Nothing was repaired, so the blob still cannot be decoded. Report it rather than
+			// treating an undecoded blob as examined.
+			return blob, matched, changed, fmt.Errorf("invalid utf-8 in history event blob could not be repaired: nothing was repaired")
 		}
 	}
 
